@@ -128,6 +128,9 @@ func genericFor(id string, p *Prog, r *Report) {
 		recordLinkRule(p, r, "R01.9", modset("vault"), 15)
 	case "C03":
 		recordLinkRule(p, r, "R03.8", modset("vault"), 15)
+		scaleAgreementRule(p, r, "R03.9", modset("vault"), 3)
+	case "C09":
+		scaleAgreementRule(p, r, "R09.7", modset("vault", "liquidation", "liquidationsV2", "lend"), 3)
 	case "C13":
 		recordLinkRule(p, r, "R13.7", modset("locker"), 4)
 	case "C14":
